@@ -73,8 +73,11 @@ static int guard_dispatch(int gt, int op, void *a, void *b, void *m0) {
 extern "C" {
 
 size_t sut_lock_size(int type) { return type == LT_TICKET ? sizeof(frg::ticket_spinlock) : sizeof(frg::simple_spinlock); }
-void sut_lock_construct(int type, void *mem) {
-	if (type == LT_TICKET) new (mem) frg::ticket_spinlock(); else new (mem) frg::simple_spinlock();
+void sut_lock_construct(int type, void *mem, int default_init) {
+	// both initialisation forms a user may write: `T x;` / a class member (default-initialisation: only the constructor
+	// stands between the lock and whatever the storage held) and `T x{}` / `T()` (value-initialisation)
+	if (default_init) { if (type == LT_TICKET) new (mem) frg::ticket_spinlock; else new (mem) frg::simple_spinlock; }
+	else { if (type == LT_TICKET) new (mem) frg::ticket_spinlock(); else new (mem) frg::simple_spinlock(); }
 }
 void sut_lock(int type, void *l) {
 	if (type == LT_TICKET) static_cast<frg::ticket_spinlock *>(l)->lock(); else static_cast<frg::simple_spinlock *>(l)->lock();
